@@ -11,6 +11,7 @@ round trips) are evaluated on the real objects independently of the model.
 """
 from __future__ import annotations
 
+import json
 import os
 
 from vcore import canon, hexs, pyres
@@ -475,8 +476,129 @@ def run(ck):
                           f"{fmt} round trip does not give export()'s bytes at the same addresses", (ld[1].absolute_address, data2[:64]), (lo, exp[:64]),
                           finding="C16-hex-unpatterned-child-transparent" if unpatterned_under_pattern(img, False) else None)
 
+    # ---------------------------------------------------------------- configuration path (load_from_config, `nxpimage utils binary-image merge`)
+    config_path(ck, drv, scratch)
+
     # ---------------------------------------------------------------- HEX / SREC text model (Model/HexFmt.lean)
     hexfmt_model(ck, drv, scratch)
+
+
+def config_path(ck, drv, scratch):
+    """BinaryImage.load_from_config / `nxpimage utils binary-image merge`: the tree described by a configuration is the tree the API builds."""
+    import yaml
+    from spsdk.utils.images import BinaryImage
+    from spsdk.utils.misc import BinaryPattern
+    rng = ck.rng
+    sc = ck.stream("config_path", "random binary-image configurations (1-5 regions: binary_block with pattern / binary_file with random bytes; explicit offsets incl. 0, "
+                   "in any order, or omitted = placed after the previous region with the image alignment; overall size derived or explicit; alignment 1/4/16): the image "
+                   "BinaryImage.load_from_config builds has every region at its configured offset, exports the bytes the Lean model gives for the tree built from the "
+                   "same description, and `nxpimage utils binary-image merge` writes exactly those bytes; non-trivial = distinct configuration")
+    cli_budget = ck.budget(12, 150)
+    reqs = []
+    for k in range(ck.budget(400, 6000)):
+        al = rng.choice([1, 1, 4, 16])
+        nreg = rng.randint(1, 5)
+        rootpat = rng.choice(["zeros", "ones", "inc", "0xA5", "0x1234"])
+        regions, spec = [], []          # spec: (name, offset or None, content bytes, pattern or None)
+        shuffled = rng.random() < 0.5   # regions listed out of address order (then every offset is explicit)
+        pos, slots = 0, []              # slots: (offset, length, explicit?) - an omitted offset means "after everything so far, aligned"
+        for i in range(nreg):
+            ln = rng.choice([1, 2, 3, 4, 8, 15, 16, 17, rng.randrange(1, 40)])
+            explicit = shuffled or rng.random() < 0.6
+            if explicit:
+                off = pos + (rng.choice([0, 0, 1, 4, 16, rng.randrange(20)]) if (i or rng.random() < 0.4) else 0)
+            else:
+                off = (pos + al - 1) // al * al
+            slots.append((off, ln, explicit))
+            pos = off + ln
+        if shuffled:
+            rng.shuffle(slots)
+        files = []
+        for i, (off, ln, explicit) in enumerate(slots):
+            name = f"r{i}"
+            if rng.random() < 0.6:
+                pat = rng.choice(["zeros", "ones", "inc", "0x5A", "0xBEEF", "0xCAFEF00D"])
+                blk = {"name": name, "size": ln, "pattern": pat}
+                if explicit:
+                    blk["offset"] = off
+                regions.append({"binary_block": blk})
+                content = BinaryPattern(pat).get_block(ln)
+                spec.append((name, off if explicit else None, content, pat))
+            else:
+                data = bytes([0x80 | rng.getrandbits(7)] + [rng.getrandbits(8) for _ in range(ln - 1)])  # first byte >= 0x80: never sniffed as text
+                path = os.path.join(scratch, f"cfg_{k}_{i}.bin")
+                with open(path, "wb") as f:
+                    f.write(data)
+                files.append(path)
+                fl = {"name": name, "path": path}
+                if explicit:
+                    fl["offset"] = off
+                regions.append({"binary_file": fl})
+                spec.append((name, off if explicit else None, data, None))
+        end = max(o + l for o, l, _ in slots)
+        size = 0 if rng.random() < 0.6 or not all(sp[1] is not None for sp in spec) else end + rng.choice([0, 1, 7, 64])
+        cfg = {"name": "root", "size": size, "pattern": rootpat, "alignment": al, "regions": regions}
+        key = json.dumps(cfg, sort_keys=True)
+        sc.note(key, cls=("shuffled" if shuffled else "ordered") + ("/sized" if size else "/derived")
+                + ("/offset0" if any(sp[1] == 0 for sp in spec) else "") + ("/omitted" if any(sp[1] is None for sp in spec) else ""))
+        ld = pyres(BinaryImage.load_from_config, cfg)
+        if ld[0] != "ok":
+            sc.expect(False, cfg, "load_from_config raised on a valid configuration", ld)
+            continue
+        img = ld[1]
+        # the tree the description denotes, built through the constructor (omitted offset: after everything placed so far, aligned)
+        ref = BinaryImage("root", size=size, pattern=BinaryPattern(rootpat), alignment=al)
+        cur_end = 0
+        for name, off, content, pat in spec:
+            o = off if off is not None else (cur_end + al - 1) // al * al
+            if pat is None:
+                ref.add_image(BinaryImage(name, offset=o, binary=content))
+            else:
+                ref.add_image(BinaryImage(name, size=len(content), offset=o, pattern=BinaryPattern(pat)))
+            cur_end = max(cur_end, o + len(content))
+            got = next((c for c in img.sub_images if c.name == name), None)
+            sc.expect(got is not None and got.offset == o and len(got) == len(content), cfg,
+                      "a region of the configuration is not placed at its configured offset" if off is not None else
+                      "a region without offset is not placed after the previous one with the image alignment",
+                      None if got is None else (name, got.offset, len(got)), (name, o, len(content)))
+        va = pyres(img.validate)
+        sc.expect(va[0] == "ok", cfg, "validate() refuses a configuration whose regions are disjoint and inside the image", va)
+        ex = pyres(img.export)
+        if ex[0] != "ok":
+            sc.expect(False, cfg, "an image loaded from a valid configuration does not export", ex)
+            continue
+        data = ex[1]
+        blk = BinaryPattern(rootpat).get_block(len(data))
+        covered = bytearray(len(data))
+        ok_at = True
+        for name, off, content, pat in spec:
+            c = next((c for c in ref.sub_images if c.name == name))
+            if data[c.offset:c.offset + len(content)] != content:
+                ok_at = False
+            covered[c.offset:c.offset + len(content)] = b"\x01" * len(content)
+        sc.expect(ok_at, cfg, "a region's bytes do not appear at its configured offset in the exported image", hexs(data[:96]))
+        if al == 1:
+            sc.expect(all(covered[j] or data[j] == blk[j] for j in range(len(data))), cfg, "bytes outside every region do not hold the fill pattern", hexs(data[:96]))
+        reqs.append((key, "export " + " ".join(tokens(ref)), canon(ex)))
+        if cli_budget > 0 and va[0] == "ok":
+            cli_budget -= 1
+            from click.testing import CliRunner
+            from spsdk.apps import nxpimage
+            cpath, opath = os.path.join(scratch, f"cfg_{k}.yaml"), os.path.join(scratch, f"cfg_{k}.out")
+            with open(cpath, "w") as f:
+                yaml.safe_dump(cfg, f)
+            r = CliRunner().invoke(nxpimage.main, ["utils", "binary-image", "merge", "-c", cpath, "-o", opath], catch_exceptions=True)
+            out = open(opath, "rb").read() if os.path.exists(opath) else None
+            sc.expect(r.exit_code == 0 and out == ref.export(), cfg, "`nxpimage utils binary-image merge` does not write the image the configuration describes",
+                      (r.exit_code, None if out is None else hexs(out[:96])), hexs(ref.export()[:96]))
+            for q in (cpath, opath):
+                if os.path.exists(q):
+                    os.unlink(q)
+        for q in files:
+            os.unlink(q)
+    if drv is not None:
+        for (inp, line, real), ans in zip(reqs, drv.batch([r[1] for r in reqs])):
+            sc.compare(inp, real, ans)
 
 
 def hexfmt_model(ck, drv, scratch):
